@@ -465,6 +465,25 @@ def run_history(ops):
                                f"(argvals_stand is not the normalisation of the new argvals)")
             except Exception as e:  # noqa: BLE001
                 mon.append(f"step {j} ({o['op']}): comparing argvals_stand with the normalised argvals raised {type(e).__name__}")
+        if out == "ok" and o["op"] in ("index", "concat"):
+            # a derived object (subset, concatenation) is a NEW dataset: its standardised points are those of ITS OWN sampling
+            # points (every component of a multivariate result included), whatever the parent's were
+            comps = list(cur.data) if isinstance(cur, MultivariateFunctionalData) else [cur]
+            for ci, g in enumerate(comps):
+                try:
+                    if not hasattr(g, "argvals_stand") or isinstance(g, MultivariateFunctionalData):
+                        continue
+                    if isinstance(g, IrregularFunctionalData) and len(g.values) == 0:
+                        continue
+                    if not (g.argvals_stand == g.argvals.normalization()):
+                        mon.append(f"step {j} ({o['op']}): the standardised sampling points of the result"
+                                   f"{' (component %d)' % ci if len(comps) > 1 or comps[0] is not cur else ''} do not track its "
+                                   f"sampling points (argvals_stand is not the normalisation of the result's own argvals)")
+                        break
+                except Exception as e:  # noqa: BLE001
+                    mon.append(f"step {j} ({o['op']}): comparing the result's argvals_stand with its normalised argvals raised "
+                               f"{type(e).__name__}")
+                    break
         ob = observe(cur)
         if ob is None:
             mon.append(f"step {j} ({o['op']}): an observer raised on the resulting object")
